@@ -173,6 +173,14 @@ var codecCBOR = &Codec{
 
 var codecs = []*Codec{codecJSON, codecUBJSON, codecCBOR}
 
+// exact returns a copy of b whose capacity equals its length, so that any access beyond the
+// input - even one that stays inside the allocator's size class - is a run-time panic.
+func exact(b []byte) []byte {
+	c := make([]byte, len(b))
+	copy(c, b)
+	return c
+}
+
 func hexs(b []byte) string {
 	if len(b) > 96 {
 		return fmt.Sprintf("%x…(%d bytes)", b[:96], len(b))
